@@ -16,7 +16,7 @@ from vsim.runner import InvalidScenario
 NAME = 'E-INTERP'
 CRASHY = False
 RUN_TIMEOUT = 300
-NO_SHRINK = {'dim', 'method', 'kernel', 'narr', 'periodic'}
+NO_SHRINK = {'dim', 'method', 'kernel', 'narr', 'periodic', 'via'}
 METHODS = ['shepard', 'sph', 'splash', 'splash_norm', 'order1']
 KERNELS_Q = ['CubicSpline']
 KERNELS_T = ['CubicSpline', 'Gaussian', 'QuinticSpline', 'WendlandQuintic']
@@ -29,7 +29,7 @@ PROPS = {
               'every interpolate is compared with the defining sums; non-trivial = some target had a source in range; distinct = digest of '
               '(method, kernel, dim, sizes, op kinds)'),
         sim_unit='interpolate calls',
-        components=dict(real=['pysph/tools/interpolator.py Interpolator + equations', 'generated evaluator (acceleration_eval)',
+        components=dict(real=['pysph/tools/interpolator.py Interpolator + equations', 'pysph/tools/sph_evaluator.py SPHEvaluator (30% of the runs)', 'generated evaluator (acceleration_eval)',
                               'LinkedListNNPS with cache, DomainManager (periodic)'], fake=[],
                         model=['brute-force sums with the Python kernel classes']),
         assumptions=['tolerance 1e-9 relative to the sum of absolute terms',
@@ -42,7 +42,8 @@ PROPS = {
 }
 PROBES = {'C14': ['target_without_source_in_range', 'rebind_other_size', 'set_points_after_rebind', 'ill_conditioned_skipped',
                   'property_missing_in_some_array', 'interpolate_after_other_property', 'h_increased_then_update', 'periodic_domain',
-                  'order1_repeated', 'order1_3d', 'auto_grid', 'gradient_component', 'integer_typed_targets']}
+                  'order1_repeated', 'order1_3d', 'auto_grid', 'gradient_component', 'integer_typed_targets', 'via_sph_evaluator',
+                  'evaluator_sources_replaced', 'evaluator_target_replaced']}
 
 
 def prepare(prop, tier):
@@ -153,12 +154,16 @@ def gen(t, prop, tier):
             if tg is not None:
                 ops.append(['set_points', tg])
     ops.append(['interp', 'f', 0])
-    return dict(dim=dim, method=method, kernel=kernel, narr=narr, arrays=arrays, targets=targets, periodic=periodic, ops=ops,
-                linear=lin, L=L, num_points=t.choice([8, 27, 50]))
+    sc = dict(dim=dim, method=method, kernel=kernel, narr=narr, arrays=arrays, targets=targets, periodic=periodic, ops=ops,
+              linear=lin, L=L, num_points=t.choice([8, 27, 50]))
+    # the same equations through the SPHEvaluator front end (evaluate / update / update_particle_arrays)
+    sc['via'] = 'evaluator' if (method != 'order1' and t.bool(0.3)) else 'interp'
+    return sc
 
 
 def sig_of(sc):
-    return dict(method=sc.get('method'), dim=sc.get('dim'), kernel=sc.get('kernel'), narr=sc.get('narr'), periodic=bool(sc.get('periodic')))
+    return dict(method=sc.get('method'), dim=sc.get('dim'), kernel=sc.get('kernel'), narr=sc.get('narr'), periodic=bool(sc.get('periodic')),
+                via=sc.get('via', 'interp'))
 
 
 def _mk_arrays(specs, dim):
@@ -185,6 +190,59 @@ def _mk_arrays(specs, dim):
             kw['g'] = arr[:, 7].copy()
         out.append(get_particle_array(**kw))
     return out
+
+
+class EvalAdapter(object):
+    """the interpolation equations driven through pysph.tools.sph_evaluator.SPHEvaluator (the post-processing front end named in
+    the property's anchors) behind the interface execute() uses for the Interpolator: evaluate / update / update_particle_arrays
+    with replaced source arrays or a replaced target array"""
+    def __init__(self, arrays, kern, targets, dm, method, dim):
+        from pysph.tools import interpolator as IM
+        from pysph.tools.sph_evaluator import SPHEvaluator
+        self.method = method
+        self.dim = dim
+        self.kernel = kern
+        self._set(arrays)
+        self.pa = self._target(targets)
+        cls = dict(shepard=IM.InterpolateFunction, sph=IM.InterpolateSPH, splash=IM.SPLASHInterpolateProperty,
+                   splash_norm=IM.SPLASHInterpolatePropertyNormalized)[method]
+        eqs = [cls(dest='interpolate', sources=[pa.name for pa in arrays])]
+        self.ev = SPHEvaluator(self.particle_arrays + [self.pa], eqs, dim=dim, kernel=kern, domain_manager=dm)
+
+    def _set(self, arrays):
+        self.particle_arrays = arrays
+        for pa in arrays:
+            if 'temp_prop' not in pa.properties:
+                pa.add_property('temp_prop')
+
+    def _target(self, targets):
+        from pysph.base.utils import get_particle_array
+        t = np.asarray(targets, dtype=float)
+        hmax = max(float(pa.get('h', only_real_particles=False).max()) for pa in self.particle_arrays)
+        pa = get_particle_array(name='interpolate', x=t[:, 0].copy(), y=t[:, 1].copy(), z=t[:, 2].copy(), h=hmax * np.ones(len(t)),
+                                number_density=np.zeros(len(t)))
+        pa.add_property('prop')
+        if self.method == 'splash_norm':
+            pa.add_property('unity')
+        return pa
+
+    def interpolate(self, prop, comp=0):
+        for pa in self.particle_arrays:
+            data = pa.get(prop, only_real_particles=False) if prop in pa.properties else 0.0
+            pa.get('temp_prop', only_real_particles=False)[:] = data
+        self.ev.evaluate()
+        return self.pa.prop.copy()
+
+    def update(self):
+        self.ev.update()
+
+    def update_particle_arrays(self, new):
+        self._set(new)
+        self.ev.update_particle_arrays(self.particle_arrays + [self.pa])
+
+    def set_interpolation_points(self, x, y, z):
+        self.pa = self._target(np.array([x, y, z], dtype=float).T)
+        self.ev.update_particle_arrays(self.particle_arrays + [self.pa])
 
 
 def execute(sc, prop):
@@ -261,8 +319,17 @@ def execute(sc, prop):
         a[:, dim:] = 0.0
         return a
     targets = tgt(sc.get('targets'))
+    via = sc.get('via', 'interp')
+    if via not in ('interp', 'evaluator') or (via == 'evaluator' and method == 'order1'):
+        raise InvalidScenario('via')
     try:
-        if targets is None:
+        if via == 'evaluator':
+            probe('via_sph_evaluator')
+            if targets is None:
+                p0 = arrays[0]
+                targets = np.array([[float(p0.x[i]), float(p0.y[i]), float(p0.z[i])] for i in range(min(3, len(p0.x)))])
+            interp = EvalAdapter(arrays, kern, targets, dm, method, dim)
+        elif targets is None:
             probe('auto_grid')
             interp = Interpolator(arrays, num_points=int(sc.get('num_points', 27)), kernel=kern, domain_manager=dm, method=method)
         else:
@@ -541,12 +608,16 @@ def execute(sc, prop):
                 if any(pn.get_number_of_particles() != po.get_number_of_particles() for pn, po in zip(new, interp.particle_arrays)):
                     probe('rebind_other_size')
                 interp.update_particle_arrays(new)
+                if via == 'evaluator':
+                    probe('evaluator_sources_replaced')
                 arrays = new
                 linear_ok[0] = (method == 'order1')
                 rebound = True
             elif k == 'set_points':
                 tg = tgt(op[1])
                 interp.set_interpolation_points(x=tg[:, 0].copy(), y=tg[:, 1].copy(), z=tg[:, 2].copy())
+                if via == 'evaluator':
+                    probe('evaluator_target_replaced')
                 if 'rebind' in kinds:
                     probe('set_points_after_rebind')
             else:
@@ -560,6 +631,6 @@ def execute(sc, prop):
             violate('operation-raised', '%s raised %r\n%s' % (k, e, traceback.format_exc()[-500:]), op=k)
             break
         kinds.append(k)
-    shape = (method, kname, dim, [len(s.get('pts', [])) for s in specs], kinds, bool(per), sc.get('targets') is None)
+    shape = (method, kname, dim, [len(s.get('pts', [])) for s in specs], kinds, bool(per), sc.get('targets') is None, via)
     return dict(violations=viol, digest=digest(repr(shape)), nontrivial=any_in_range[0], faults={}, probes=probes,
                 sim=float(ninterp), inconclusive=False)
